@@ -1,5 +1,6 @@
 import NrDaemon.Driver.Core
 import NrDaemon.Model.Limiter
+import NrDaemon.Gen.Limits
 /-! Engine `limiter`: the real limitClient around an instrumented inner client (trace acceptance). -/
 
 structure LimEng where
@@ -69,3 +70,20 @@ def limiterStep (st : LimEng) (t : Tokens) (impl : Option String) : LimEng × St
     let s' := if tokNat t 2 > st.timeoutMs && st.timeoutMs > 0 then st.s.waiting.foldl (fun s i => s.step (.timeout i)) st.s else st.s
     finishWith st s'
   | _ => (st, { model := "bad-op" })
+
+/-- engine `client`: the client the worker builds is the limited one, whatever the proxy setting -/
+def clientStep (t : Tokens) (impl : Option String) : StepOut :=
+  match tokStr t 1 with
+  | "new" =>
+    let model := s!"limited=1 cap={Gen.Limits.MaxOutboundConns} tokens={Gen.Limits.MaxOutboundConns} timeout={Gen.Limits.HarvestTimeout}"
+    let fails := match impl with
+      | none => []
+      | some line =>
+        let it := tokenize line
+        if line == "err" then []   -- no client at all: the worker exits (C14 looks at what it logs)
+        else
+          (if kvGet it "limited" == some "1" then [] else ["C18 client: the client the worker uses for this proxy setting is not wrapped by the limiter (no bound on requests in flight, no time-out)"]) ++
+          (if kvGet it "limited" == some "1" && kvGet it "cap" != some (toString Gen.Limits.MaxOutboundConns) then ["C18 client: the limiter's capacity is not MaxOutboundConns"] else []) ++
+          (if kvGet it "limited" == some "1" && kvGet it "tokens" != kvGet it "cap" then ["C18 client: a new limiter does not have all its tokens"] else [])
+    { model := model, specFails := fails }
+  | _ => { model := "bad-op" }
